@@ -1,9 +1,12 @@
 package core
 
 import (
+	"math"
 	"math/rand"
 	"sync/atomic"
 	"testing"
+
+	"verifsim/store"
 )
 
 func init() {
@@ -51,6 +54,38 @@ func init() {
 		}
 		if c != nil {
 			c.Prop = prop
+		}
+		return c
+	}
+	// C13: half fault cases (runtime panics inside storage callbacks), half parameter extremes and
+	// degenerate data run through the differential scenario (only C13 findings are reported:
+	// panics escaping a goroutine, panics escaping Exec).
+	generators["C13"] = func(t *testing.T, r *rand.Rand, prop, tier string, pg *atomic.Int64) *Case {
+		if r.Intn(2) == 0 {
+			return GenFault(t, r, prop, tier, pg)
+		}
+		c := GenDiff(r, []string{"C04", "C04", "C06", "C05", "C01"}[r.Intn(5)], tier)
+		c.Prop = prop
+		switch r.Intn(8) {
+		case 0:
+			c.Data = nil // no series
+		case 1:
+			for i := range c.Data { // series without samples
+				c.Data[i].T, c.Data[i].V = nil, nil
+			}
+		case 2:
+			for i := range c.Data { // a single sample each
+				if len(c.Data[i].T) > 1 {
+					k := r.Intn(len(c.Data[i].T))
+					c.Data[i].T, c.Data[i].V = c.Data[i].T[k:k+1], c.Data[i].V[k:k+1]
+				}
+			}
+		case 3:
+			for i := range c.Data { // all NaN
+				for j := range c.Data[i].V {
+					c.Data[i].V[j] = store.F(math.NaN())
+				}
+			}
 		}
 		return c
 	}
